@@ -527,6 +527,12 @@ class Exec(ExprMixin, CallMixin):
         for r in mod:
           new = z3.Store(new, r, fresh('hvf_' + f, Val))
         h = h.set('f:' + f, new)
+    # ghost state: any callee in the body may write the ghost names it declares
+    gnames = set(n for n in h.names() if n.startswith('g:') or n.startswith('ga:'))
+    for c_ in C.REGISTRY.values():
+      gnames.update(getattr(c_, 'ghost_writes', ()) or ())
+    for gname in sorted(gnames):
+      h = h.set(gname, fresh('hv_' + gname.replace(':', '_'), heap_sort(gname)))
     # allocation may have grown
     na = fresh('hv_alloc', I)
     facts.append(na >= st.heap.alloc)
